@@ -37,9 +37,9 @@ RULE = ('S: all tree shapes x {pair,or} per inner node x annotation placements x
         '(entrypoint, argument).  non-trivial = distinct (type, value) whose Python object uses an inferred name (prim_N), '
         'nests a composite inside a composite, or goes through a contract-level helper with an unannotated union leaf')
 BOUND = {
-    'quick': 'S: n<=3 leaves full alphabet on all nodes x 3 leaf modes, n=4 alphabet {none,%a,%int_1} on non-root nodes; '
+    'quick': 'S: n<=3 leaves full alphabet on all nodes (int leaves; unit/mixed leaves with {none,%a,%collider}), n=4 alphabet {none,%a,%int_1} on non-root nodes; '
              'L: 2 leaves x 21 leaf types x 2 naming schemes x <=9 value combinations; E: n<=3 leaves, names {none,%a,%b}',
-    'thorough': 'S: n=4 full alphabet (non-root nodes), n=5 alphabet {none,%a,%int_1}; L: 3 leaves over the palette, wrappers '
+    'thorough': 'S: n<=3 full alphabet x 3 leaf modes, n=4 full alphabet (non-root nodes), n=5 alphabet {none,%a,%int_1}; L: 3 leaves over the palette, wrappers '
                 'option/list/map/set; E: n<=4 leaves',
 }
 ASSUMPTIONS = ['equality of values = equality of their readable Micheline rendering (lazy_diff=None, as ContractData does)',
@@ -200,11 +200,12 @@ def build_S(shape, kinds, annots, mode):
 
 def s_shards(tier):
     out = []
-    plans = [(2, 'full', True, m) for m in COLLIDER] + [(3, 'full', True, m) for m in COLLIDER]
+    plans = [(2, 'full', True, m) for m in COLLIDER] + [(3, 'full', True, 'int')]
     if tier == 'quick':
-        plans += [(4, 'small', False, 'int')]
+        plans += [(3, 'small', True, 'unit'), (3, 'small', True, 'mixed'), (4, 'small', False, 'int')]
     else:
-        plans += [(4, 'full', False, 'int'), (4, 'small', False, 'unit'), (4, 'small', False, 'mixed'),
+        plans += [(3, 'full', True, 'unit'), (3, 'full', True, 'mixed'),
+                  (4, 'full', False, 'int'), (4, 'small', False, 'unit'), (4, 'small', False, 'mixed'),
                   (5, 'small', False, 'int')]
     for n, alpha, with_root, mode in plans:
         for si in range(len(shapes(n))):
